@@ -136,9 +136,22 @@ Print Assumptions C11_interp_order_preserving.
 (** positions on chromosomes absent from the map are reported missing, all others are finite *)
 Theorem C11_interp_off_map_missing : forall rows c x,
   (has_chr rows c = false -> interp_pos rows (c, x) = NaN) /\
-  (has_chr rows c = true -> interp_pos rows (c, x) = Fin (interp1 (knots rows c) x)).
+  (has_chr rows c = true -> interp_pos rows (c, x) = Fin (interp1 (spline_knots rows c) x)).
 Proof. intros rows c x. split; [apply interp_off_map | apply interp_on_map]. Qed.
 Print Assumptions C11_interp_off_map_missing.
+
+(** the spline does not depend on the order of the arrays it is built from (interp1d sorts the knots): a map built with
+    auto_group = False interpolates exactly like the sorted map, and on a sorted map the knot sort is the identity *)
+Theorem C11_spline_independent_of_array_order : forall input, distinct_pos input ->
+  (forall cx, interp_pos input cx = interp_pos (gm_rows input) cx) /\
+  (forall c, spline_knots input c = knots (gm_rows input) c) /\
+  (forall c, spline_knots (gm_rows input) c = knots (gm_rows input) c).
+Proof.
+  intros input ND. split; [intros cx; now apply interp_auto_group_independent|]. split; [intros c; now apply spline_knots_order_independent|].
+  intros c. apply spline_knots_sorted; [apply sort_rows_strongly|].
+  unfold distinct_pos, gm_rows. apply (Permutation_NoDup (l := map pos input)); [|exact ND]. apply Permutation_map. symmetry. apply sort_rows_perm.
+Qed.
+Print Assumptions C11_spline_independent_of_array_order.
 
 (** * crossover probabilities *)
 (** vrnt_xoprob: the variants are the sorted query, the first variant and every variant whose chromosome differs from
